@@ -1287,7 +1287,7 @@ func ruleHooks(c *chk.Ctx) {
 // ruleFilterErrorTable: filterError maps exactly the codes ErrorCode assigns
 // to the context sentinels back to those sentinels.
 func ruleFilterErrorTable(c *chk.Ctx) {
-	ec := c.M.Pkg.Func("ErrorCode")
+	ec := c.M.Func(c.M.Pkg, "ErrorCode")
 	var fe *ssa.Function
 	for _, f := range pkgFuncs(c, c.M.Pkg) {
 		if f.Parent() == nil && f.Signature.Recv() == nil && f.Signature.Params().Len() == 1 && f.Signature.Results().Len() == 1 &&
@@ -1841,10 +1841,8 @@ func idOfResponse(c *chk.Ctx, k, r ssa.Value, depth int) bool {
 		k = ir.NormCell(ct.X)
 	}
 	// k == r.id
-	if u, ok := k.(*ssa.UnOp); ok && u.Op == token.MUL {
-		if fa, ok := u.X.(*ssa.FieldAddr); ok && ir.FieldVar(fa) == c.M.RID && (fa.X == r || ir.SameValue(fa.X, r)) {
-			return true
-		}
+	if b, fv, ok := ir.FieldRead(k); ok && fv == c.M.RID && (ir.NormCell(b) == r || ir.SameValue(b, r)) {
+		return true
 	}
 	// r is a fresh Response whose id field was stored with k
 	if al, ok := r.(*ssa.Alloc); ok {
